@@ -125,6 +125,7 @@ func init() {
 		c.Floor("exits of the inbound handler that took a push/pull slot", nexit, 1)
 
 		checkAliveVersions(c, "C09")
+		checkReclaimExists(c, "C09") // a restarted member re-joining from a new address is listed when the handler finishes
 		pp := c.MustFunc("Memberlist.pushPullNode")
 		xp := c.flow(pp, map[string]string{})
 		// when the exchange hands back one value that carries the join flag, every successful
